@@ -295,7 +295,13 @@ def reloadStep (st : ReloadSt) (j : Json) : Except String (ReloadSt × String) :
   let pre := st.cl
   let some prevJ := st.prev | return ({ st with prev := some post, cl := cl }, "ok no-previous-state")
   let base : ReloadSt := { st with prev := some post, cl := cl }
-  let inv0 : List String := (cl.filterMap (fun (_, p) => shapeInv p.tree))
+  let inv0 : List String := (cl.filterMap (fun (_, p) => shapeInv p.tree)) ++
+    -- the rest of the well-formedness the marking theorems are about (proved invariant for the model: `w0_reachable`)
+    (cl.filterMap (fun (n, p) =>
+      if !parentsFirst p.tree then some s!"C16.W1 [{n}] the dumped tree is not parents-first with distinct non-empty paths"
+      else if !w0 p.tree then some s!"C16.W0 [{n}] a managed queue below an unmanaged one"
+      else if !pathParents p.tree then some s!"C16.W2 [{n}] a queue does not name its parent by its path"
+      else none))
   -- no application enters a queue that was draining
   let drainClause : List String := (pre.map (fun (n, p) => p.tree.filterMap (fun q =>
       if q.state != .draining then none else
@@ -372,10 +378,21 @@ def reloadStep (st : ReloadSt) (j : Json) : Except String (ReloadSt × String) :
         match pc.fresh with
         | .error e => some s!"diff fresh.accepted[{pc.name}] model=refused({repr e}) impl=loaded"
         | .ok mp => (treeDiffR mp.tree fp.tree).map (fun d => s!"diff fresh.state [{pc.name}] {d}"))
-    let diff := match diffAns, diffFresh, diffState with
-      | some d, _, _ => some d
-      | none, some d, _ => some d
-      | none, none, d => d
+    -- the marking walk as the code performs it (`updateTreeRec`: MarkQueueForRemoval down through the children) on the
+    -- implementation's previous tree, against the implementation's new tree
+    let diffWalk : Option String :=
+      if !out || (viaEvent && text == st.text) then none else conf.findSome? (fun pc =>
+        match pre.get pc.name, cl.get pc.name with
+        | some p0, some p1 =>
+          (match updateTreeRec p0.tree pc.queues with
+           | (tw, none) => (treeDiffR tw p1.tree).map (fun d => s!"diff reload.walk [{pc.name}] {d}")
+           | (_, some _) => none)
+        | _, _ => none)
+    let diff := match diffAns, diffFresh, diffState, diffWalk with
+      | some d, _, _, _ => some d
+      | none, some d, _, _ => some d
+      | none, none, some d, _ => some d
+      | none, none, none, d => d
     -- clauses on the implementation
     let unchanged : Option String :=
       if post.compress == prevJ.compress then none else
